@@ -10,6 +10,8 @@
 //   sched <tid>...
 //   end
 //
+//   op   = ax<n>[:<prims>]  a coroutine does `co_await pool(awaitable)` on a pending operation (slot n), scheduling point right after
+//                           the registration; res<n> (or the prim v<n>) resolves it from another thread: that thread submits the coroutine
 //   op   = <kind>[:<prims>] | stop | destroy | curq | cura | curc (the current:: API from a thread that is no worker)
 //          kind fn may be spelled fn[V][L][T]: function returning void / large closure / the function throws (run()'s catch branch)
 //          kind det may be spelled detL / detF / detG: large (heap) closure / small closure in a caller-side cocls::function / large one that way
@@ -19,6 +21,7 @@
 //   prims (what the unit of work does when it runs): s = pool.stop()   f = nested pool.run(fn)   d = nested run_detached
 //          D = delete the pool      x = the closure's destructor deletes the pool (det only; after the job ran)
 //          r = when the job is cancelled, its handler / destructor / watcher calls back into the pool (is_stopped())
+//          v<n> = resolve the operation awaited in slot n (see ax<n>) as soon as its awaiter is registered
 //          q = thread_pool::current::is_stopped()   a = thread_pool::current::any_enqueued()
 //          c = co_await thread_pool::current() (coroutine kinds co/rh/aw): the rest of the body is re-submitted to the pool of this worker
 //          w<n> = block until event n has been signalled (a job waiting for another job)      e<n> = signal event n
@@ -86,7 +89,15 @@ struct Scn {
     thread_pool *poolB = nullptr;   // optional second instance (one worker, never a submission): only stopped / destroyed
     int nw = 0;
     std::deque<JobRec> jobs;
-    bool flags[10] = {};
+    bool flags[20] = {};   // 0..9: events of the scenario; 10+n: "the awaiter of slot n is registered"
+    // co_await pool(awaitable) on an operation that another thread resolves
+    struct Slot {
+        std::unique_ptr<future<int>> fut;
+        promise<int> prom;
+        std::string prims;
+        int job = -1;
+        bool used = false;
+    } slots[10];
     int guards_live = 0;
 
     static std::string tid() { return "t" + std::to_string(vshim::self_id); }
@@ -182,6 +193,7 @@ struct Scn {
                 case 'D': do_destroy(); break;
                 case 'b': do_stopB(); break;
                 case 'B': do_destroyB(); break;
+                case 'v': if (i + 1 < prims.size()) do_resolve((prims[++i] - '0') % 10); break;
                 case 'q': do_cur_stopped(); break;
                 case 'a': do_cur_enq(); break;
                 case 'w': if (i + 1 < prims.size()) do_wait((prims[++i] - '0') % 10); break;
@@ -305,6 +317,56 @@ struct Scn {
         do_prims(j);
         co_return 100 + j;
     }
+    // awaiter of the awaited future with a scheduling point right after its registration (still inside await_suspend of
+    // the pool's enqueue_awaiter): a resolver on another thread may fire exactly there
+    struct RacedAwt {
+        co_awaiter<future<int>> inner;
+        Scn *sc;
+        int n;
+        bool await_ready() { return inner.await_ready(); }
+        bool await_suspend(awaiter::resume_fn fn, void *ctx) {
+            bool r = inner.await_suspend(fn, ctx);
+            sc->flags[10 + n] = true;
+            S().log_op("aw-reg a" + std::to_string(n));
+            S().yield();
+            return r;
+        }
+        int &await_resume() { return inner.await_resume(); }
+    };
+    async<void> ax_job(int n) {
+        int j = -1;
+        try {
+            RacedAwt awt{{*slots[n].fut}, this, n};
+            int v = co_await (*pool)(awt);
+            (void)v;
+            j = slots[n].job;
+            on_run(j);
+            COCLS_VERIF_CORO_BODY(j)
+        } catch (const await_canceled_exception &) {
+            if (j >= 0) on_cancel(j);
+        }
+    }
+    void do_park(int n, const std::string &prims) {
+        slots[n].fut.reset(new future<int>());
+        slots[n].prom = slots[n].fut->get_promise();
+        slots[n].prims = prims;
+        log("park a" + std::to_string(n) + " " + tid());
+        ax_job(n).detach();
+    }
+    // resolve the operation of slot n as soon as its awaiter is registered: the resolving thread hands the coroutine to the pool
+    void do_resolve(int n) {
+        do_wait(10 + n);
+        if (slots[n].used) return;
+        slots[n].used = true;
+        int j = (int)jobs.size();
+        jobs.emplace_back();
+        jobs[j].id = j;
+        jobs[j].kind = "aw";
+        jobs[j].prims = slots[n].prims;
+        slots[n].job = j;
+        log("submit j" + std::to_string(j) + " aw " + tid() + " exit=" + (pool->_exit ? "1" : "0"));
+        slots[n].prom(5);
+    }
     async<void> aw_job(int j) {
         try {
             int v = co_await (*pool)(*jobs[j].fut);
@@ -420,6 +482,11 @@ struct Scn {
         for (auto &op : ops) {
             if (op == "stop") do_stop();
             else if (op == "destroy") do_destroy();
+            else if (op.size() == 4 && op.substr(0, 3) == "res") do_resolve((op[3] - '0') % 10);
+            else if (op.substr(0, 2) == "ax" && op.size() >= 3) {
+                auto c = op.find(':');
+                do_park((op[2] - '0') % 10, c == std::string::npos ? "" : op.substr(c + 1));
+            }
             else if (op == "curq") do_cur_stopped();
             else if (op == "cura") do_cur_enq();
             else if (op == "curc") cur_client().detach();
